@@ -41,17 +41,26 @@ def run(ctx):
             ok = ev in roots and not any(x[0] == 'agg' and x[1].startswith('rip_kernel::Event') and x[2] is not None and not _is_def_of(f, ev, x[2]) for x in src)
             ctx.ob('C03.2', f, 'same-event:' + c.name, ok,
                    '%s receives %s' % (c.name, 'the appended event `%s` (or its clone)' % f.lname(ev) if ok else 'a value that is NOT the appended event'), line=c.line)
-        # no mutation of the event local after construction
-        muts = [d for d in f.proj_defs(ev)]
-        mutrefs = []
-        for bi in f.reachable():
-            for st in f.blocks[bi]['s']:
-                rv = st.get('rv')
-                if rv and rv['k'] == 'ref' and rv.get('mut') and rv['pl']['l'] == ev:
-                    mutrefs.append(st.get('ln', 0))
-        ctx.ob('C03.2', f, 'event-immutable', not muts and not mutrefs,
-               'the emitted event local `%s` is %s' % (f.lname(ev), 'never assigned through or mutably borrowed' if not muts and not mutrefs else
-                                                       'modified after construction (line %s)' % (muts[0][4] if muts else mutrefs[0])), line=s.line)
+        # no mutation of the event value after construction: neither the appended local nor any
+        # Event-typed local the siblings receive (a moved / rebound copy) is assigned through
+        # or mutably borrowed
+        chain = {ev}
+        for c in sibs:
+            r = f.root_local(c.args[1], through_calls=(r'Clone>::clone$', r'::clone$', r'::deref$', r'::as_ref$'))
+            if r is not None:
+                chain.add(r)
+        chain = {l for l in chain if 'rip_kernel::Event' in f.lty(l)}
+        muts = []
+        for l in chain:
+            muts += [(d[4], f.lname(l)) for d in f.proj_defs(l)]
+            for bi in f.reachable():
+                for st in f.blocks[bi]['s']:
+                    rv = st.get('rv')
+                    if rv and rv['k'] == 'ref' and rv.get('mut') and rv['pl']['l'] == l:
+                        muts.append((st.get('ln', 0), f.lname(l)))
+        ctx.ob('C03.2', f, 'event-immutable', not muts,
+               'the emitted event (%s) is %s' % (', '.join(sorted(f.lname(l) for l in chain)), 'never assigned through or mutably borrowed' if not muts else
+                                                'modified after construction (`%s`, line %s): log, sidecar and live stream no longer carry the same frame' % (muts[0][1], muts[0][0])), line=s.line)
 
     # ---------------------------------------------------------------- C03.3
     rs = P.body('ripd::session::run_session')
